@@ -137,6 +137,10 @@ def replay(harness, behs, shards=8, chunk=300):
                 except subprocess.TimeoutExpired:
                     p.kill()
                     raise Infra('replay shard %d timed out' % i)
+                except BaseException:
+                    for _, q in procs:
+                        q.kill()
+                    raise
                 if p.returncode != 0:
                     raise Infra('replay shard %d failed (exit %d):\n%s' % (i, p.returncode, o[-3000:]))
                 reports = json.load(open(os.path.join(tmp, 'report%d.json' % i)))
